@@ -195,6 +195,8 @@ def run_case(rec, case):
         files = [dict(f, t1=f["t0"] + min(cap, (f["t1"] - f["t0"])
                                           + dt.timedelta(seconds=widen.choice([0, 600, 3600, 7200]))))
                  for f in files]
+        if case.get("real_t1"):
+            files = [dict(f, t1=dt.datetime.fromisoformat(case["real_t1"][str(f["id"])])) for f in files]
         table = {}
 
         def info_fn(file_info):
@@ -333,8 +335,55 @@ def gen_case(rng):
     return case
 
 
+def name_order_case(rng):
+    """File names that do not sort chronologically inside a directory (the name starts with the satellite):
+    the nearest file sits in the following day's directory behind a lexically earlier, later-starting one."""
+    dirs = rng.choice([d for d in fm.DIR_LAYOUTS if d[2] == "day" and not any("{sat}" in x or "*" in x for x in d[1])])
+    layout = fm.Layout(dirs[0], dirs[1], dirs[2], rng.choice(["full", "fulldoy", "disc"]), with_sat=True,
+                       wildcard=False)
+    day = dt.datetime(2017, rng.randrange(1, 13), rng.randrange(2, 27))
+    dur = D(0) if layout.end_style == "disc" else D(minutes=rng.choice([0, 10, 50]))
+    late = day + D(days=1, hours=rng.choice([15, 18, 22]))
+    early = day + D(days=1, hours=rng.choice([1, 6, 9]))
+    files = [{"id": 0, "t0": late, "t1": late + dur, "sat": "metop"},
+             {"id": 1, "t0": early, "t1": early + dur, "sat": "zz-n18-b"},
+             {"id": 2, "t0": day - D(days=2, hours=3), "t1": day - D(days=2, hours=3) + dur, "sat": "n18"}]
+    t = day + D(hours=rng.choice([11, 12, 13]))
+    case = c01.make_case([layout], files, [], [], [])
+    case["kind"] = "closest"
+    case["stamps"] = [[t.isoformat(), None, "closest"], [(t + D(minutes=7)).isoformat(), None, "getitem"]]
+    return case
+
+
+def handler_coverage_case(rng):
+    """Names show the start only, the file handler knows the real (longer) coverage: a direct name hit on
+    the long file, then a timestamp late in its coverage that is nearer to the next file's start."""
+    dirs = rng.choice([d for d in fm.DIR_LAYOUTS if d[2] == "day" and not any("{sat}" in x or "*" in x for x in d[1])])
+    layout = fm.Layout(dirs[0], dirs[1], dirs[2], "disc", with_sat=rng.random() < 0.5, wildcard=False)
+    day = dt.datetime(2018, rng.randrange(1, 13), rng.randrange(2, 27))
+    a0 = day + D(hours=rng.choice([0, 2]))
+    a1 = a0 + D(hours=rng.choice([5, 6]))
+    b0 = a1 + D(hours=1)
+    files = [{"id": 0, "t0": a0, "t1": a0, "sat": "n18"}, {"id": 1, "t0": b0, "t1": b0, "sat": "n18"},
+             {"id": 2, "t0": day + D(days=1, hours=3), "t1": day + D(days=1, hours=3), "sat": "metop"}]
+    case = c01.make_case([layout], files, [], [], [])
+    case["kind"] = "closest"
+    case["handler_info"] = True
+    case["extra_stamps_done"] = True
+    case["real_t1"] = {"0": a1.isoformat(), "1": (b0 + D(hours=1)).isoformat(),
+                       "2": (day + D(days=1, hours=4)).isoformat()}
+    case["stamps"] = [[a0.isoformat(), None, "closest"], [(a1 - D(minutes=30)).isoformat(), None, "closest"],
+                      [(a1 - D(minutes=20)).isoformat(), None, "getitem"]]
+    return case
+
+
 def run_shard(spec, rec):
     rng = rng_for(spec["seed"], "c16", spec["shard"])
+    for _ in range(2):
+        run_case(rec, name_order_case(rng))
+        rec.count("closest.name_order_cases")
+        run_case(rec, handler_coverage_case(rng))
+        rec.count("closest.handler_coverage_cases")
     for i in range(spec["n"]):
         case = gen_case(rng)
         if i == 0:
